@@ -102,7 +102,7 @@ func (g *genState) paramType() int {
 
 func (g *genState) name() string {
 	if g.r.Chance(1, 12) {
-		return Names[6+g.r.Intn(2)] // a name whose upper-case form is not ASCII; the name "-"
+		return Names[6+g.r.Intn(3)] // a name whose upper-case form is not ASCII; the name "-"; a name spelled like an option
 	}
 	return Names[g.r.Intn(4)]
 }
